@@ -275,6 +275,14 @@ def _stacking_cases(draw, tier="quick"):
         # recording members answer with a signature of the training set they were given (number of rows, weighted target sum)
         model = R.s_regressor(draw, recording=True) if kind == "reg" else (R.s_classifier(draw) if kind == "clf" else _models_for(kind, draw))
         members.append(dict(model=model, wrap=wrap, wrap_method="predict" if (wrap and kind == "clf") else (draw(st.sampled_from([None, "predict"])) if wrap else None)))
+    if task == "clf" and draw(st.integers(0, 3)) == 0:
+        # two wrapped members of different classes whose hyper-parameters have the same names and values (a k-NN classifier and a k-NN
+        # regressor): each contributes its OWN block
+        k = draw(st.sampled_from([3, 5]))
+        pair = [dict(model=dict(cls="KNeighborsClassifier", params=dict(n_neighbors=k)), wrap=True, wrap_method="predict"),
+                dict(model=dict(cls="KNeighborsRegressor", params=dict(n_neighbors=k)), wrap=True, wrap_method="predict")]
+        at = draw(st.integers(0, len(members)))
+        members = members[:at] + pair[::draw(st.sampled_from([1, -1]))] + members[at:]
     datasets = [R.d_reg(draw), R.d_reg(draw)] if task == "reg" else [R.d_clf(draw), R.d_clf(draw)]
     return dict(members=members, method=draw(st.sampled_from([None, "predict"])), datasets=datasets, use_weights=draw(st.booleans()) and task == "reg",
                 history=[draw(st.integers(0, 1)) for _ in range(draw(st.integers(1, 3)))], task=task,
